@@ -21,7 +21,9 @@ EXTENDS Naturals, FiniteSets, FiniteSetsExt
 
 CONSTANTS L,        \* bound on local writes
           R,        \* length of the remote chain
-          ElseIf
+          ElseIf,
+          AtomicRecalc   \* TRUE (repaired tree): a recalculation reads and sets under one lock; FALSE (pinned): the main
+                         \* loop and a writing goroutine may interleave between the reads and the set
 
 VARIABLES len,      \* entries in the log
           clk,      \* largest Lamport time in the log
@@ -29,9 +31,10 @@ VARIABLES len,      \* entries in the log
           ann,      \* the remote head has been announced
           got,      \* remote entries fetched (LoadProgress delivered)
           joined,   \* the batch has been joined
-          max, prog
+          max, prog,
+          pend      \* 0, or 1 + the maximum the main loop has computed for an announcement and not set yet
 
-vars == <<len, clk, wrote, ann, got, joined, max, prog>>
+vars == <<len, clk, wrote, ann, got, joined, max, prog, pend>>
 
 Max2(a, b) == IF a > b THEN a ELSE b
 Min2(a, b) == IF a < b THEN a ELSE b
@@ -40,40 +43,50 @@ RecalcMax(x, ln, m) == IF ElseIf THEN (IF ln > x THEN ln ELSE IF m > x THEN m EL
                                  ELSE Max2(Max2(ln, x), m)
 RecalcProg(ln, m, p) == Max2(ln, Min2(p + 1, m))
 
-Init == len = 0 /\ clk = 0 /\ wrote = 0 /\ ann = FALSE /\ got = {} /\ joined = FALSE /\ max = 0 /\ prog = 0
+Init == len = 0 /\ clk = 0 /\ wrote = 0 /\ ann = FALSE /\ got = {} /\ joined = FALSE /\ max = 0 /\ prog = 0 /\ pend = 0
 
-Write == /\ wrote < L
+\* (a write runs on its caller's goroutine: it may fall between the two steps of the main loop's recalculation)
+Write == /\ wrote < L /\ (AtomicRecalc => pend = 0)
          /\ wrote' = wrote + 1 /\ len' = len + 1 /\ clk' = clk + 1
          /\ LET m == RecalcMax(clk + 1, len + 1, max) IN max' = m /\ prog' = RecalcProg(len + 1, m, prog)
-         /\ UNCHANGED <<ann, got, joined>>
+         /\ UNCHANGED <<ann, got, joined, pend>>
 
-Announce == /\ ~ann /\ R > 0
+Announce == /\ ~ann /\ R > 0 /\ pend = 0
             /\ ann' = TRUE
             /\ max' = RecalcMax(R, len, max)
-            /\ UNCHANGED <<len, clk, wrote, got, joined, prog>>
+            /\ UNCHANGED <<len, clk, wrote, got, joined, prog, pend>>
 
-Progress(e) == /\ ann /\ e \notin got
+\* the same in two steps: recalculateReplicationMax reads the log length and the maximum (AnnRead), then sets (AnnSet)
+AnnRead == /\ ~ann /\ R > 0 /\ pend = 0
+           /\ ann' = TRUE
+           /\ pend' = 1 + RecalcMax(R, len, max)
+           /\ UNCHANGED <<len, clk, wrote, got, joined, max, prog>>
+AnnSet == /\ pend > 0
+          /\ max' = pend - 1 /\ pend' = 0
+          /\ UNCHANGED <<len, clk, wrote, ann, got, joined, prog>>
+
+Progress(e) == /\ ann /\ e \notin got /\ pend = 0
                /\ got' = got \cup {e}
                /\ LET m == RecalcMax(e, len, max) IN max' = m /\ prog' = RecalcProg(len, m, prog)
-               /\ UNCHANGED <<len, clk, wrote, ann, joined>>
+               /\ UNCHANGED <<len, clk, wrote, ann, joined, pend>>
 
 \* LoadEnd is emitted once every task is fetched; some LoadProgress events may
 \* not have been handled by then
-JoinAll == /\ ann /\ ~joined
+JoinAll == /\ ann /\ ~joined /\ pend = 0
            /\ joined' = TRUE
            /\ len' = len + R /\ clk' = Max2(clk, R)
            /\ IF len + R > prog
                  THEN LET m == RecalcMax(len + R, len + R, max) IN max' = m /\ prog' = RecalcProg(len + R, m, prog)
                  ELSE UNCHANGED <<max, prog>>
-           /\ UNCHANGED <<wrote, ann, got>>
+           /\ UNCHANGED <<wrote, ann, got, pend>>
 
-Next == Write \/ Announce \/ (\E e \in 1..R : Progress(e)) \/ JoinAll
+Next == Write \/ Announce \/ AnnRead \/ AnnSet \/ (\E e \in 1..R : Progress(e)) \/ JoinAll
 
 Spec == Init /\ [][Next]_vars
 
 \* C19
 Monotone == [][max' >= max /\ prog' >= prog]_vars
-AtRest   == (~ann \/ (joined /\ got = 1..R))
+AtRest   == (~ann \/ (joined /\ got = 1..R)) /\ pend = 0
 RestOK   == AtRest => (prog = max /\ clk <= max /\ max <= len)
 SingleWriterCount == (AtRest /\ (~ann \/ wrote = 0)) => max = len
 ProgLeMax == prog <= max
